@@ -65,7 +65,7 @@ ASSUMPTIONS = [
 FLOCQ_AXIOMS = ["ClassicalDedekindReals.sig_forall_dec", "ClassicalDedekindReals.sig_not_dec", "Classical_Prop.classic",
                 "FunctionalExtensionality.functional_extensionality_dep"]
 TRUSTED_EXTRA = [
-    "Flocq 4.1.0 (installed in user-contrib; IEEE754.Binary / BinarySingleNaN / Bits / PrimFloat and Core), used ONLY by Model/FloatFormat.v, Model/FloatFormatWire.v, Proofs/FloatFormat{Laws,Payload,Prim}.v and part (E) of Props/C08.v. The 22 float-format theorems of Props/C08.v depend on exactly four standard-library axioms, through Coq.Reals on which Flocq's specification of rounding is built: "
+    "Flocq 4.1.0 (installed in user-contrib; IEEE754.Binary / BinarySingleNaN / Bits / PrimFloat and Core), used ONLY by Model/FloatFormat.v, Model/FloatFormatWire.v, Proofs/FloatFormat{Laws,Payload,Prim}.v and part (E) of Props/C08.v. The 15 float-format theorems of Props/C08.v depend on exactly four standard-library axioms, through Coq.Reals on which Flocq's specification of rounding is built: "
     + ", ".join(FLOCQ_AXIOMS) + " (the first two axiomatise the classical Dedekind reals, the third is excluded middle, the fourth functional extensionality). harness/core.py accepts these four by exact name and only for C08 (ALLOWED_AXIOMS / AXIOM_SCOPE); any other axiom fails the audit. The 28 exact-carrier / code-formula / oracle theorems remain closed under the global context",
     "Coq.Floats.FloatAxioms (specification of the primitive float operations) for the L0' theorems; Print Assumptions lists exactly which of them each theorem uses",
     "Python decimal (>= 45 digits) for e^x and fractions.Fraction for the exact value of a binary64 number, on the harness side of the Log comparison",
@@ -846,7 +846,7 @@ def run(tier, seed):
                                   "F2": "d2ec7af ViterbiSemiring.star(0) is 0 (was: where(x >= 0, inf, 0.))",
                                   "F21": "ad94aa4 PatternedTensor.exp/expm1/log/log1p treat the default like torch treats an element (was: LogSemiring.sub on PatternedTensors raised whenever exp(y.default - x.default) >= 1)"},
                float_format_cases=getattr(ctx, "flocq_cases", {}),
-               open_items=["associativity of float add/mul and distributivity of Real mul over add are FALSE on binary32 and binary64 (C08_float_*_refuted_binary32/64); they are laws of the exact carriers only (part A), which is where star induction / least-solution statements live",
+               open_items=["associativity of float add/mul and distributivity of Real mul over add are FALSE on binary32 and binary64 (C08_float_assoc_distr_refuted_binary32/64); they are laws of the exact carriers only (part A), which is where star induction / least-solution statements live",
                            "RealSemiring.star = 1/(1-x) is modelled and compared bit-exactly for float32/float64, but the float-level statement star x = 1 + x*star x is not claimed (it is false after rounding); only star x = inf for x >= 1 and the exact-carrier law are proved",
                            "F22 (float32 PatternedTensor with a default beyond the float32 range cannot be densified) is open in /repo; reported as KNOWN-FINDING",
                            "LogSemiring add/sub/star/sum are judged within a tolerance in the exp reading, not bit-exactly (transcendental functions)",
